@@ -945,6 +945,12 @@ func (t *FnTrans) instr(in ssa.Instruction) {
 		}
 	case *ssa.ChangeType:
 		v := t.val(x.X)
+		if v.S != "" {
+			if c, ok := t.convStruct(v.S, x.X.Type(), x.Type()); ok {
+				t.bind(x, c)
+				break
+			}
+		}
 		t.vals[x] = v
 	case *ssa.ChangeInterface:
 		t.vals[x] = t.val(x.X)
@@ -2392,4 +2398,31 @@ func (t *FnTrans) retEnv(res []SVal) *Env {
 		env.vars["result"] = res[0]
 	}
 	return env
+}
+
+// convStruct: a struct value of type From as a value of type To (same underlying struct, different named types have
+// different SMT datatypes): rebuilt field by field. ok is false when no conversion is needed or possible.
+func (t *FnTrans) convStruct(term string, From, To types.Type) (string, bool) {
+	From, To = t.resolve(From), t.resolve(To)
+	fs, ok1 := From.Underlying().(*types.Struct)
+	ts, ok2 := To.Underlying().(*types.Struct)
+	if !ok1 || !ok2 || fs.NumFields() != ts.NumFields() {
+		return "", false
+	}
+	sf, st := t.structSort(From, fs), t.structSort(To, ts)
+	if sf == st {
+		return "", false
+	}
+	if ts.NumFields() == 0 {
+		return "mk_" + st, true
+	}
+	var args []string
+	for i := 0; i < ts.NumFields(); i++ {
+		a := app(q(sf+"."+fieldAcc(fs, i)), term)
+		if c, ok := t.convStruct(a, fs.Field(i).Type(), ts.Field(i).Type()); ok {
+			a = c
+		}
+		args = append(args, a)
+	}
+	return app("mk_"+st, args...), true
 }
